@@ -6,6 +6,8 @@ from mc import fsm
 from mc.world import make_shot, make_calc
 
 PID = 'C11'
+# thread bodies (defined with engine E4, mc/checks/c10_sched.py) that exercise this property's code; explored after the parts below
+SCHED_SETS = [('firex||fire', 'call')]
 LEVEL = 'model_checking'
 ENGINE = 'E1+E3'
 TECHNIQUE = 'exhaustive enumeration of all pairs of (range, step, time step, extra) requests per shot on the real solver, rows matched by distance; plus all point sequences up to depth n through real record filters that differ only in recording parameters'
